@@ -100,22 +100,90 @@ func sourcesOf(v ssa.Value) []ssa.Value {
 // isShallowCopyOf reports whether v is (a phi of) slices.Clone(x) or
 // append(dst, x...) / a struct load, i.e. an outer copy whose nested slices
 // still alias the source elements; src is the copied-from value.
-func shallowCopySources(v ssa.Value) []ssa.Value {
-	var out []ssa.Value
+type shallowSrc struct {
+	arg  ssa.Value
+	call *ssa.Call
+}
+
+func shallowCopySources(v ssa.Value) []shallowSrc {
+	var out []shallowSrc
 	for _, s := range sourcesOf(v) {
 		c, ok := s.(*ssa.Call)
 		if !ok {
 			continue
 		}
 		if b, ok := c.Call.Value.(*ssa.Builtin); ok && b.Name() == "append" && len(c.Call.Args) == 2 {
-			out = append(out, c.Call.Args[1])
+			out = append(out, shallowSrc{c.Call.Args[1], c})
 			continue
 		}
 		if callee := c.Call.StaticCallee(); callee != nil && fnName(callee) == "Clone" && fnPkg(callee) != nil && fnPkg(callee).Path() == "slices" {
-			out = append(out, c.Call.Args[0])
+			out = append(out, shallowSrc{c.Call.Args[0], c})
 		}
 	}
 	return out
+}
+
+// sameFieldReads lists the loads of field f that v derives from (through
+// slicing and append's destination operand).
+func sameFieldReads(v ssa.Value, f *types.Var, depth int) []ssa.Instruction {
+	var out []ssa.Instruction
+	if depth > 6 {
+		return out
+	}
+	for _, o := range Origins(v, OriginOpts{}) {
+		switch o.Kind {
+		case OrgField:
+			if o.Field == f {
+				if ins, ok := o.Val.(ssa.Instruction); ok {
+					out = append(out, ins)
+				}
+			}
+		case OrgCall:
+			cc := o.Call.Common()
+			if b, ok := cc.Value.(*ssa.Builtin); ok && b.Name() == "append" {
+				out = append(out, sameFieldReads(cc.Args[0], f, depth+1)...)
+			} else if callee := cc.StaticCallee(); callee != nil && inModule(callee) {
+				// append wrappers of the module return their argument's storage
+				for _, a := range cc.Args {
+					if _, isSlice := a.Type().Underlying().(*types.Slice); isSlice {
+						out = append(out, sameFieldReads(a, f, depth+1)...)
+					}
+				}
+			}
+		}
+	}
+	return out
+}
+
+// executesAfter: can b execute after a within one function?
+func executesAfter(a, b ssa.Instruction) bool {
+	if a == nil || b == nil || a.Parent() != b.Parent() {
+		return true
+	}
+	ba, bb := a.Block(), b.Block()
+	reach := reachableAvoidingSet(ba, nil, nil)
+	selfLoop := false
+	for _, s := range ba.Succs {
+		if s == ba || reachableAvoidingSet(s, nil, nil)[ba] {
+			selfLoop = true
+		}
+	}
+	if ba == bb {
+		if selfLoop {
+			return true
+		}
+		ia, ib := -1, -1
+		for i, ins := range ba.Instrs {
+			if ins == a {
+				ia = i
+			}
+			if ins == b {
+				ib = i
+			}
+		}
+		return ib > ia
+	}
+	return reach[bb]
 }
 
 func runOwnRule(c *Ctx, rule string, spec ownSpec) {
@@ -144,6 +212,7 @@ func runOwnRule(c *Ctx, rule string, spec ownSpec) {
 		pos  token.Pos
 		path []*types.Var
 		src  string
+		at   ssa.Instruction // the copying instruction (append / Clone / struct load)
 	}
 	var copies []copyInfo
 	nfn := 0
@@ -231,12 +300,12 @@ func runOwnRule(c *Ctx, rule string, spec ownSpec) {
 			}
 			// shallow copies published above owned paths
 			for _, src := range shallowCopySources(st.Val) {
-				copies = append(copies, copyInfo{fn, st.Pos(), tp, describeValue(p, src)})
+				copies = append(copies, copyInfo{fn, st.Pos(), tp, describeValue(p, src.arg), src.call})
 			}
 			if _, isStruct := st.Val.Type().Underlying().(*types.Struct); isStruct {
 				if u, ok := st.Val.(*ssa.UnOp); ok && u.Op == token.MUL {
 					if _, fresh := u.X.(*ssa.Alloc); !fresh {
-						copies = append(copies, copyInfo{fn, st.Pos(), tp, describeValue(p, u.X)})
+						copies = append(copies, copyInfo{fn, st.Pos(), tp, describeValue(p, u.X), u})
 					}
 				}
 			}
@@ -250,7 +319,13 @@ func runOwnRule(c *Ctx, rule string, spec ownSpec) {
 		keys = append(keys, k)
 	}
 	sort.Strings(keys)
-	reowned := map[string]map[*ssa.Function]bool{}
+	// re-own candidates: stores of owned values; reads lists the loads of
+	// the same field the value is built on (empty = freshly allocated)
+	type reown struct {
+		fn    *ssa.Function
+		reads []ssa.Instruction
+	}
+	reowned := map[string][]reown{}
 	for _, key := range keys {
 		for i, s := range stores[key] {
 			bad := ownedValueProblem(p, s.st.Val, s.path[len(s.path)-1], 0)
@@ -260,10 +335,11 @@ func runOwnRule(c *Ctx, rule string, spec ownSpec) {
 			}
 			if bad == "" {
 				c.Pass(rule, okey, s.st.Pos(), "value stored into reset-managed storage is freshly allocated or moved from the same path")
-				if reowned[key] == nil {
-					reowned[key] = map[*ssa.Function]bool{}
-				}
-				reowned[key][s.fn] = true
+				// after a shallow struct copy the field holds the *source's*
+				// slice, so `append(x.f[:0], …)` executed after the copy
+				// appends into the live storage: the reads of the same field
+				// the value is built on are kept and ordered against the copy
+				reowned[key] = append(reowned[key], reown{s.fn, sameFieldReads(s.st.Val, s.path[len(s.path)-1], 0)})
 			} else if why, ok := spec.Exempt[okey]; ok {
 				c.Pass(rule, okey, s.st.Pos(), "exempt: %s", why)
 			} else {
@@ -284,7 +360,22 @@ func runOwnRule(c *Ctx, rule string, spec ownSpec) {
 				continue
 			}
 			done[okey] = true
-			if reowned[key][cp.fn] {
+			isReowned, aliasing := false, false
+			for _, ro := range reowned[key] {
+				if ro.fn != cp.fn {
+					continue
+				}
+				// every assignment of the field in the function must give the
+				// copy storage of its own: one that appends into what the field
+				// holds after the copy appends into the source's storage
+				for _, rd := range ro.reads {
+					if executesAfter(cp.at, rd) {
+						aliasing = true
+					}
+				}
+				isReowned = true
+			}
+			if isReowned && !aliasing {
 				c.Pass(rule, okey, cp.pos, "copy of %s published at %s; %s is re-assigned with fresh storage in the same function", cp.src, cpKey, key)
 				continue
 			}
